@@ -91,7 +91,10 @@ def behav : P Behav := do
   let kidTerm ← optNat
   let execFail ← bool
   let spawnMs ← nat
-  pure { term := term, killLat := killLat, kids := kids, kidTerm := kidTerm, execFail := execFail, spawnMs := spawnMs }
+  let eperm ← bool
+  let kidEperm ← bool
+  pure { term := term, killLat := killLat, kids := kids, kidTerm := kidTerm, execFail := execFail, spawnMs := spawnMs,
+         eperm := eperm, kidEperm := kidEperm }
 
 def op : P Op := do
   let t ← tok
